@@ -496,6 +496,7 @@ fn gen_family(rng: &mut Rng) -> (Vec<String>, Vec<String>, Vec<Vec<&'static str>
         format!("{}\\n\\n{}\\n{}", l1, l2, l3),       // 4 blank line inside
         format!("{}\\n{}\\n{}", l1, lx, l3),          // 5 other content
         format!("{}\\n{}\\t\\n{}", l1, l2, l3),       // 6 trailing tab
+        format!("{}\\n{}\\n{}", l3, l2, l1),          // 7 lines swapped (long-prefix member)
     ];
     let chain: String = contents.iter().enumerate().map(|(i, c)| format!("if s == \"{}\" {{ code = {} }}\n", c, i + 1)).collect();
     let text = |lit: &str, stmt_tail: &str, between: &str| -> String {
@@ -514,11 +515,18 @@ fn gen_family(rng: &mut Rng) -> (Vec<String>, Vec<String>, Vec<Vec<&'static str>
         text(&format!("{}\n{}\t\n{}", l1, l2, l3), "", ""),
         base.clone(),
     ];
+    // long sources that agree on a long prefix (a key that looks only at the beginning, or at the length, of the text)
+    let pad_lines = *rng.pick(&[120usize, 700, 2500]);
+    let pad: String = (0..pad_lines).map(|i| format!("// padding line {:05} ........................\n", i)).collect();
+    pool.push(format!("{}{}", pad, base));
+    pool.push(format!("{}{}", pad, text(&lit(&l1, &lx, &l3), "", "")));
+    pool.push(format!("{}{}", pad, text(&lit(&l3, &l2, &l1), "", "")));      // same length as the first long one
     let mut names: Vec<String> = pool.iter().map(|_| "fam.aelys".to_string()).collect();
-    let last = names.len() - 1;
+    let last = 8;
     names[last] = "other.aelys".to_string();
     let feats: Vec<Vec<&'static str>> = vec![vec!["family-base"], vec!["family-crlf"], vec!["family-trailing-blanks"], vec!["family-no-final-newline"],
-        vec!["family-blank-lines-outside"], vec!["family-blank-line-in-literal"], vec!["family-other-literal"], vec!["family-trailing-tab"], vec!["family-same-content-other-name"]];
+        vec!["family-blank-lines-outside"], vec!["family-blank-line-in-literal"], vec!["family-other-literal"], vec!["family-trailing-tab"], vec!["family-same-content-other-name"],
+        vec!["family-long-prefix-a"], vec!["family-long-prefix-b"], vec!["family-long-prefix-same-length"]];
     // a broken member now and then (error results must not leak across keys either)
     if rng.chance(1, 4) { pool[6] = pool[6].replace("fn g(k)", "fn g(k"); }
     (pool, names, feats)
@@ -660,6 +668,28 @@ fn det_source(rng: &mut Rng, dir: &std::path::Path, idx: usize) -> (std::path::P
             head += &format!("needs {} as a{}\n", mname, u);
             tail += &format!("let du{} = a{}.{}_f0(2)\n", u, u, mname);
         }
+    }
+    // functions and lambdas that name globals the parent compiler has not indexed yet: the child
+    // compiler hands out the indices and its table is merged into the parent's (HashMap walk)
+    if rng.chance(1, 2) {
+        let k = 2 + rng.below(4);
+        let calls: Vec<String> = (0..k).map(|j| format!("fwd{}_{}()", idx, j)).collect();
+        tail += &format!("fn fwuser{}() {{ return {} }}\n", idx, calls.join(" + "));
+        if rng.chance(1, 2) { tail += &format!("let fwlam{} = fn(x) {{ return x + {} }}\n", idx, calls.join(" + ")); feats.push("lambda-forward-globals"); }
+        for j in 0..k { tail += &format!("fn fwd{}_{}() {{ return {} }}\n", idx, j, rng.below(90)); }
+        feats.push("forward-globals");
+    }
+    // a nested function owning several interned strings (Heap::merge walks the intern table)
+    if rng.chance(1, 2) {
+        let k = 2 + rng.below(4);
+        let parts: Vec<String> = (0..k).map(|j| format!("\"ns{}_{}{}\"", idx, j, rng.pick(&WORDS))).collect();
+        tail += &format!("fn nstr{}() {{\n  fn inner(x) {{ return {} + x }}\n  return inner(\"q{}\")\n}}\n", idx, parts.join(" + "), idx);
+        feats.push("nested-interned-strings");
+    }
+    // small functions in call cycles, each declared before its caller where possible (inliner analysis)
+    if rng.chance(1, 3) {
+        tail += &format!("fn mrd{i}(n) {{ return mrc{i}(n) + 1 }}\nfn mra{i}(n) {{ return mrb{i}(n) }}\nfn mrb{i}(n) {{ return mrc{i}(n) + mrd{i}(n) }}\nfn mrc{i}(n) {{ return mra{i}(n) }}\n", i = idx);
+        feats.push("mutual-recursion");
     }
     // many globals (layout order) and many functions
     if rng.chance(1, 2) {
